@@ -21,6 +21,84 @@ def repo_root() -> str:
     return os.environ.get("GMSA_REPO", "/repo")
 
 
+_MIRROR = {ast.Eq: ast.Eq, ast.NotEq: ast.NotEq, ast.Lt: ast.Gt, ast.Gt: ast.Lt, ast.LtE: ast.GtE, ast.GtE: ast.LtE}
+
+
+def _const_like(e: ast.AST) -> bool:
+    return isinstance(e, ast.Constant) or (isinstance(e, ast.UnaryOp) and isinstance(e.op, (ast.USub, ast.UAdd))
+                                           and isinstance(e.operand, ast.Constant))
+
+
+class _Orient(ast.NodeTransformer):
+    def visit_Compare(self, node: ast.Compare):
+        self.generic_visit(node)
+        if len(node.ops) != 1 or type(node.ops[0]) not in _MIRROR:
+            return node
+        l, r, op = node.left, node.comparators[0], type(node.ops[0])
+        if _const_like(r) and not _const_like(l):
+            return node
+        if _const_like(l) and not _const_like(r):
+            swap = True
+        elif op in (ast.Gt, ast.GtE):
+            swap = True
+        elif op in (ast.Eq, ast.NotEq):
+            swap = ast.unparse(l) > ast.unparse(r)
+        else:
+            swap = False
+        if not swap:
+            return node
+        new = ast.Compare(r, [_MIRROR[op]()], [l])
+        return ast.copy_location(new, node)
+
+
+_EXACT_NEG = {ast.Eq: ast.NotEq, ast.NotEq: ast.Eq, ast.In: ast.NotIn, ast.NotIn: ast.In, ast.Is: ast.IsNot, ast.IsNot: ast.Is}
+
+
+def _negate_exact(t: ast.AST) -> ast.AST:
+    """Exact negation: not X -> X; == / in / is <-> their negated operators (never < <-> >=, which differ on NaN)."""
+    if isinstance(t, ast.UnaryOp) and isinstance(t.op, ast.Not):
+        return t.operand
+    if isinstance(t, ast.Compare) and len(t.ops) == 1 and type(t.ops[0]) in _EXACT_NEG:
+        return ast.copy_location(ast.Compare(t.left, [_EXACT_NEG[type(t.ops[0])]()], t.comparators), t)
+    return ast.copy_location(ast.UnaryOp(ast.Not(), t), t)
+
+
+def _only_pass(body) -> bool:
+    return bool(body) and all(isinstance(x, ast.Pass) for x in body)
+
+
+def _visit_UnaryOp(self, node: ast.UnaryOp):
+    self.generic_visit(node)
+    if isinstance(node.op, ast.Not) and isinstance(node.operand, ast.Compare) and len(node.operand.ops) == 1 \
+            and type(node.operand.ops[0]) in _EXACT_NEG:
+        return _negate_exact(node.operand)
+    return node
+
+
+def _visit_If(self, node: ast.If):
+    self.generic_visit(node)
+    chain = len(node.orelse) == 1 and isinstance(node.orelse[0], ast.If)
+    if _only_pass(node.orelse):
+        node.orelse = []
+    if _only_pass(node.body) and node.orelse and not chain:
+        node.test, node.body, node.orelse = _negate_exact(node.test), node.orelse, []
+    elif isinstance(node.test, ast.UnaryOp) and isinstance(node.test.op, ast.Not) and node.orelse and not chain:
+        node.test, node.body, node.orelse = node.test.operand, node.orelse, node.body
+    return node
+
+
+_Orient.visit_UnaryOp = _visit_UnaryOp
+_Orient.visit_If = _visit_If
+
+
+def orient_comparisons(tree: ast.AST) -> ast.AST:
+    """One orientation per comparison, by mirroring only (a > b -> b < a; 3 == x -> x == 3; == operands in lexical
+    order): mirroring never changes the value of a comparison (also for NaN), so every rule sees `b < a` whether
+    the source says `b < a` or `a > b`.  Likewise `not a == b` -> `a != b` (also in / is), `if not c: A else: B` ->
+    `if c: B else: A`, `if c: pass else: B` -> `if <not c>: B`.  Positions are kept; reports quote the oriented form."""
+    return ast.fix_missing_locations(_Orient().visit(tree))
+
+
 class AnalysisError(Exception):
     """Anchor vanished / unparsable file / floor not met: exit 2, never a pass."""
 
@@ -170,7 +248,7 @@ class Repo:
                 try:
                     with open(path, encoding="utf-8") as fh:
                         src = fh.read()
-                    tree = ast.parse(src, filename=path)
+                    tree = orient_comparisons(ast.parse(src, filename=path))
                 except (SyntaxError, OSError, UnicodeDecodeError) as exc:
                     raise AnalysisError("cannot parse %s: %s" % (rel, exc))
                 m = Module(mod, path, rel, src, tree)
